@@ -146,6 +146,16 @@ def g_fast(rng, n):
         for w in ws:
             for q in qs:
                 out.append(PF(fmt, str(w) if w else '', '', q, 'G-FAST'))
+        # disguised fast path: w <= 2^p but w * 10^(q-hi) overflows u64 and the WRAPPED product is small
+        # (<= 2^p): the checked multiplication must reject these
+        for _ in range(max(20, n // 4)):
+            sh = rng.range(4, dis - hi)
+            cmax = max(1, (10 ** sh) >> (64 - p))
+            cc = rng.range(1, cmax)
+            tt = rng.below(max(1, (1 << p) - 10 ** sh))
+            w = ((cc << 64) + tt) // (10 ** sh) + 1
+            if 0 < w <= (1 << p):
+                out.append(PF(fmt, str(w), '', hi + sh, 'G-FAST/wrap'))
         for _ in range(n):
             q = rng.range(lo - 2, dis + 2)
             k = rng.below(4)
